@@ -61,6 +61,40 @@ Theorem roadm_quality : forall r deg from l o,
 Proof. exact Proofs.Roadm.roadm_quality. Qed.
 Print Assumptions roadm_quality.
 
+(* ---- PMD / PDL (carried squared): the crossing adds exactly the 'roadm-pmd' / 'roadm-pdl' looked up on the internal
+        path at the carrier's frequency, in quadrature, and never lowers them *)
+Theorem roadm_pmd_pdl : forall r deg from l o,
+  propagate r deg from l = Ok o ->
+  exists pm pd, path_pol r from deg l = Ok (pm, pd) /\ length pm = length l /\ length pd = length l /\
+    forall i c c', nth_error l i = Some c -> nth_error (o_chans o) i = Some c' ->
+      exists a b, nth_error pm i = Some a /\ nth_error pd i = Some b /\
+        cpmd2 c' = cpmd2 c + a * a /\ cpdl2 c' = cpdl2 c + b * b /\
+        cpmd2 c <= cpmd2 c' /\ cpdl2 c <= cpdl2 c'.
+Proof. exact Proofs.Roadm.roadm_pmd_pdl. Qed.
+Print Assumptions roadm_pmd_pdl.
+
+(* unsquared reading of "never lowers": x = pmd before, y = pmd after *)
+Theorem quadrature_monotone : forall x y, 0 <= x -> 0 <= y -> x * x <= y * y -> x <= y.
+Proof. exact Proofs.Roadm.sq_le_le. Qed.
+Print Assumptions quadrature_monotone.
+
+(* the value added is that of the first entry of the path's profile that contains the carrier's frequency and
+   defines the key (an entry without it is skipped) *)
+Theorem pol_per_band : forall r from deg l pm pd bs,
+  path_pol r from deg l = Ok (pm, pd) -> get_path (rpaths r) from deg = Ok bs ->
+  Forall (fun c => lookup1k bpmd bs (cf c) <> None) l -> Forall (fun c => lookup1k bpdl bs (cf c) <> None) l ->
+  forall i c a b, nth_error l i = Some c -> nth_error pm i = Some a -> nth_error pd i = Some b ->
+    lookup1k bpmd bs (cf c) = Some a /\ lookup1k bpdl bs (cf c) = Some b.
+Proof. exact Proofs.Roadm.pol_per_band. Qed.
+Print Assumptions pol_per_band.
+
+Theorem lookup1k_spec : forall sel bs f q,
+  lookup1k sel bs f = Some q ->
+  exists pre b post, bs = pre ++ b :: post /\ in_band b f = true /\ sel b = Val q /\
+    Forall (fun b' => in_band b' f = false \/ kv_val (sel b') = None) pre.
+Proof. exact Proofs.Roadm.lookup1k_spec. Qed.
+Print Assumptions lookup1k_spec.
+
 (* ---- what the element reports: loss_pch_db = input - output >= path loss; reference channel: same min rule
         with the largest path loss, reference loss >= that loss *)
 Theorem roadm_reports : forall r deg from l o,
@@ -176,17 +210,28 @@ Print Assumptions one_policy_null_refuted.
    express path 1->2 with two bands (C: 16.5 dB, L: 5 dB), add path 9->3 with the default (0 dB) *)
 Definition ex_roadm : roadm :=
   mkRoadm None (Some (-34)) None [(2%Z, -16)] [] [(3%Z, -35)] (Some (15, 17)) [(1%Z, -2); (9%Z, 0)]
-    [mkPath 1 2 [mkBand (Some (191300, 196100)) (Val (33 # 2)); mkBand (Some (186300, 190100)) (Val 5)];
-     mkPath 9 3 [global_band]; mkPath 1 4 [global_band]].
+    [mkPath 1 2 [mkBand (Some (191300, 196100)) (Val (33 # 2)) (Val 3) Absent;
+                 mkBand (Some (191300, 196100)) Absent Absent (Val (1 # 2));
+                 mkBand (Some (186300, 190100)) (Val 5) (Val 0) (Val (3 # 10))];
+     mkPath 9 3 [global_band 1 (1 # 2)]; mkPath 1 4 [global_band 1 (1 # 2)]].
 (* mixed spectrum: one carrier far above target, one below target after the loss, one in the L band *)
 Definition ex_spectrum : list chan :=
-  [mkC 193100 15 17 (1 # 2) 3 (9 # 10) (1 # 20) (1 # 20);
-   mkC 193200 18 (75 # 4) 0 (-10) 1 0 0;
-   mkC 188000 15 17 (-2) (-9) (3 # 4) (1 # 4) 0].
+  [mkC 193100 15 17 (1 # 2) 3 (9 # 10) (1 # 20) (1 # 20) 16 0;
+   mkC 193200 18 (75 # 4) 0 (-10) 1 0 0 0 (1 # 4);
+   mkC 188000 15 17 (-2) (-9) (3 # 4) (1 # 4) 0 1 1].
 
 Example ex_crossing_powers :
   match propagate ex_roadm 2 1 ex_spectrum with
   | Ok o => map (fun c => Qred (cp c)) (o_chans o) = [(-31 # 2); (-53 # 2); (-18)] /\ o_ref_out o == (-37 # 2) /\ o_ref_loss o == (33 # 2)
+  | Err _ => False
+  end.
+Proof. vm_compute. repeat split; reflexivity. Qed.
+
+(* pmd: 4^2 + 3^2 = 25 on carrier 1 (first entry), second entry supplies the pdl the first one lacks; L band: 0 / 0.3 *)
+Example ex_crossing_pmd_pdl :
+  match propagate ex_roadm 2 1 ex_spectrum with
+  | Ok o => map (fun c => Qred (cpmd2 c)) (o_chans o) = [25; 9; 1] /\
+            map (fun c => Qred (cpdl2 c)) (o_chans o) = [(1 # 4); (1 # 2); (109 # 100)]
   | Err _ => False
   end.
 Proof. vm_compute. repeat split; reflexivity. Qed.
@@ -205,8 +250,8 @@ Proof. vm_compute. repeat split; reflexivity. Qed.
 
 (* the hypothesis 0 <= ml of roadm_no_gain is needed: a negative 'roadm-maxloss' makes the model (and gnpy) amplify *)
 Example ex_negative_maxloss_amplifies :
-  match propagate (mkRoadm (Some 0) None None [] [] [] None [(1%Z, 0)] [mkPath 1 2 [mkBand None (Val (-3))]]) 2 1
-                  [mkC 193100 15 17 0 (-10) 1 0 0] with
+  match propagate (mkRoadm (Some 0) None None [] [] [] None [(1%Z, 0)] [mkPath 1 2 [mkBand None (Val (-3)) (Val 0) (Val 0)]]) 2 1
+                  [mkC 193100 15 17 0 (-10) 1 0 0 0 0] with
   | Ok o => map (fun c => Qred (cp c)) (o_chans o) = [(-7)]
   | Err _ => False
   end.
